@@ -10,12 +10,23 @@ Scenario:  <seed> <outalloc 0|1> <nthreads> { <nops> op*nops }*nthreads
        | :s <ms> directive (counted as an item of the script, not an operation): the thread's next operation rests <ms> milliseconds
          INSIDE the locked region (the underlying allocator sleeps when it is reached with the lock held; an operation that does not
          reach it rests just before the lock is given back) while the other threads ask for the lock.
+       | :e <n> sw*n epoch boundary (counted as one item; every thread's script has the same number of them, only thread 0's name
+         switches): all threads finish what comes before; the test thread, alone, calls the switches sw in order (0 turnOff,
+         1 turnOnDefaultNotThreadSafe, 2 turnOnThreadSafe, 3 saveAndDisable, 4 restore NewDeleteOverloads) and then a fixed probe
+         (new/delete, new nothrow/delete, new debug/delete, the three of new[] with delete[], malloc, realloc, free: 15 calls);
+         then all threads go on.  For thread 0 a new epoch is a new test.  Scripts run only in epochs in which the history of
+         switches so far (started after turnOnThreadSafeNewDeleteOverloads) means "thread-safe": every restore closes a
+         saveAndDisable, direct switches only outside save..restore, not inside a bracket, last direct switch = thread-safe.
 Thread 0 runs its script as consecutive tests of a real registry on the thread that started the run; the other threads are
 real pthreads running concurrently.  <seed> drives the pre-emption injected at the mutex lock/unlock seams (0 = none) and,
 on the model side, the schedule.  <outalloc>: the test output allocates (through the same overloads) while printing a failure.
 <overlap>: the largest number of threads seen between the return of PlatformSpecificMutexLock and the call of
 PlatformSpecificMutexUnlock at one moment, minus the one thread the lock admits.
-Observation:  :ok <ntests> verdict* <wfail> <adv> <distinct> <foreign> <rest> <overlap> <n> (<thread> <slot> <size>)*n   |  :hang"""
+<calls> <locked> per epoch: calls of entry points the harness made (probe, script operations that are not skipped, the output's
+new[]/delete[] while printing a failure) and those during which the calling thread acquired the detector's lock exactly once
+(counted at the PlatformSpecificMutexLock seam).
+Observation:  :ok <ntests> verdict* <wfail> <adv> <distinct> <foreign> <rest> <overlap> <n> (<thread> <slot> <size>)*n
+                  <nepochs> (<calls> <locked>)*nepochs   |  :hang"""
 import re
 ID = "C10"
 FLAVOURS = ["tsan", "noexc", "plain"]      # TSan (exceptions on) | ASan+UBSan, -fno-exceptions -fno-rtti | no sanitizer, full speed
@@ -36,9 +47,16 @@ RULE = ("(a) every release entry point (delete, delete[], free, realloc) x every
         "new one in), free, a refused realloc -- while 2-7 other threads ask for the lock, every thread without a rest of its own "
         "holding its last operation back until a rest has begun: 6 scenarios in the quick tier (2 hand-written, run as one concurrent "
         "batch), 2+16 in the thorough tier. "
+        "(f) histories of the overload switches between epochs of concurrent scripts (state carried across: blocks allocated before a "
+        "switch cycle are reallocated / released after it): saveAndDisable/restore once, nested 2-3 deep, interleaved nests, several "
+        "cycles, turnOff then turnOnThreadSafe, cycles around and after these, and as negative controls turnOnDefault / turnOff / an "
+        "open saveAndDisable (epochs in which nothing but the probe runs) followed by the way back -- 14 fixed histories x {before any "
+        "operation, in the middle of the scripts} x {0, 1, 3} workers, plus random multi-epoch scenarios (2-5 epochs, 1-6 threads, "
+        "misuses on the test thread); every epoch begins with a 15-call probe of all entry points by the test thread alone. "
         "Pre-emption injected at every lock/unlock (yield / short sleep by seed). non-trivial = at least two threads with operations, "
         "or a misuse")
-ASSUMPTIONS = ["only the thread that runs the tests misuses the allocator (a report ends the test by longjmp to a buffer on that thread's stack)",
+ASSUMPTIONS = ["switches of the overloads are flipped only while no other thread is inside or about to enter an entry point (between epochs; the eleven function pointers are plain statics), every restore closes a saveAndDisable, and the three direct switches are not used inside a saveAndDisable..restore bracket",
+               "only the thread that runs the tests misuses the allocator (a report ends the test by longjmp to a buffer on that thread's stack)",
                "threads pass only their own pointers (or one that was never allocated) and allocate into empty pointer variables",
                "the underlying malloc succeeds (sizes <= 64 KiB) and so does realloc except where a script asks for a size that cannot be had or makes the seam fail; the mutex is the platform's pthread mutex",
                "a realloc that is turned down is given NULL or an intact malloc-family block (not an overrun one, not one of another family)",
@@ -121,6 +139,11 @@ class Sim:
 
     def boundary(self):
         self.emit(":t")
+        self.skip = False
+
+    def epoch(self, sw=()):
+        """epoch boundary; for the test thread it also starts a new test"""
+        self.emit(":e %x%s" % (len(sw), "".join(" %x" % k for k in sw)))
         self.skip = False
 
     # misuse: kind 0 overrun, 1 other family, 2 never allocated; entry 0 delete 1 delete[] 2 free 3 realloc
@@ -305,8 +328,132 @@ def rest_family(tier, rng):
     return [rest_scenario(rng, ms, where, n, on) for ms, where, n, on in plan]
 
 
+OFF, DEFAULT, SAFE, SAVE, RESTORE = 0, 1, 2, 3, 4
+# histories after which the switches mean "thread-safe" ...
+SAFE_HISTORIES = [[SAVE, RESTORE], [SAVE, SAVE, RESTORE, RESTORE], [SAVE, SAVE, SAVE, RESTORE, RESTORE, RESTORE],
+                  [SAVE, SAVE, RESTORE, SAVE, RESTORE, RESTORE], [SAVE, RESTORE, SAVE, RESTORE], [SAVE, RESTORE] * 3,
+                  [SAFE], [OFF, SAFE], [DEFAULT, SAFE], [SAVE, RESTORE, SAFE], [OFF, SAVE, RESTORE, SAFE],
+                  [OFF, SAFE, SAVE, RESTORE], [DEFAULT, SAVE, RESTORE, SAFE, SAVE, SAVE, RESTORE, RESTORE], []]
+# ... and pairs (history that does not, the way back): an epoch with nothing but the probe in between (negative controls)
+CONTROL_HISTORIES = [([DEFAULT], [SAFE]), ([OFF], [SAFE]), ([SAVE], [RESTORE]), ([SAVE, SAVE, RESTORE], [RESTORE]),
+                     ([SAVE, RESTORE, DEFAULT], [SAVE, RESTORE, SAFE]), ([DEFAULT, SAVE], [RESTORE, SAFE])]
+
+
+def doc_state(hist):
+    """(depth, last direct switch) or None if the history is not one the meaning speaks of"""
+    depth, last = 0, SAFE
+    for k in hist:
+        if k == SAVE:
+            depth += 1
+        elif k == RESTORE:
+            if depth == 0:
+                return None
+            depth -= 1
+        else:
+            if depth:
+                return None
+            last = k
+    return depth, last
+
+
+def doc_safe(hist):
+    st = doc_state(hist)
+    return st is not None and st == (0, SAFE)
+
+
+def random_safe_chunk(rng):
+    """a stretch of history that starts and ends where the switches mean thread-safe"""
+    c = rng.random()
+    if c < 0.55:
+        out, depth = [], 0
+        for _ in range(rng.choice([2, 2, 4, 4, 6, 8])):
+            if depth == 0 or (depth < 3 and rng.random() < 0.5):
+                out.append(SAVE)
+                depth += 1
+            else:
+                out.append(RESTORE)
+                depth -= 1
+        return out + [RESTORE] * depth
+    if c < 0.75:
+        return rng.choice(SAFE_HISTORIES)
+    if c < 0.9:
+        return [rng.choice([OFF, DEFAULT]), SAFE] + ([SAVE, RESTORE] if rng.random() < 0.5 else [])
+    return []
+
+
+def switch_family(rng):
+    """(f), fixed part: every listed history x where it happens x how many workers"""
+    out = []
+    for hist in SAFE_HISTORIES:
+        for where in ("first", "middle"):
+            for nw in (0, 1, 3):
+                ths = [Sim(rng, i == 0, 8) for i in range(1 + nw)]
+                if where == "middle":
+                    for t in ths:
+                        t.benign(rng.randrange(3, 8))
+                for i, t in enumerate(ths):
+                    t.epoch(hist if i == 0 else ())
+                for i, t in enumerate(ths):
+                    t.benign(rng.randrange(4, 10))        # blocks from before the switches are reallocated / released here
+                if rng.random() < 0.4:
+                    ths[0].misuse(rng.randrange(4), rng.randrange(3))
+                    ths[0].boundary()
+                    ths[0].benign(2)
+                out.append(line(rng.randrange(1, 1 << 20), rng.randrange(2), ths))
+    for away, back in CONTROL_HISTORIES:
+        for nw in (0, 2):
+            ths = [Sim(rng, i == 0, 8) for i in range(1 + nw)]
+            for t in ths:
+                t.benign(rng.randrange(2, 6))
+            for i, t in enumerate(ths):
+                t.epoch(away if i == 0 else ())       # nothing runs here but the probe
+            for i, t in enumerate(ths):
+                t.epoch(back if i == 0 else ())
+            for t in ths:
+                t.benign(rng.randrange(4, 10))
+            out.append(line(rng.randrange(1, 1 << 20), 0, ths))
+    return out
+
+
+def switchy(rng, big):
+    """(f), random part: 2-5 epochs, the history grows by safe chunks and now and then by a control pair"""
+    n = rng.choice([1, 2, 2, 3, 4, 6]) if not big else rng.choice([2, 3, 4, 8, 12])
+    ths = [Sim(rng, i == 0, rng.choice([4, 8])) for i in range(n)]
+    nep = rng.randrange(2, 6)
+    first_empty = rng.random() < 0.3
+    for e in range(nep):
+        if e:
+            if rng.random() < 0.15:
+                away, back = rng.choice(CONTROL_HISTORIES)
+                for i, t in enumerate(ths):
+                    t.epoch(away if i == 0 else ())
+                sw = back + random_safe_chunk(rng)
+            else:
+                sw = random_safe_chunk(rng)
+            for i, t in enumerate(ths):
+                t.epoch(sw if i == 0 else ())
+        if e == 0 and first_empty:
+            continue
+        for i, t in enumerate(ths):
+            k = rng.choice([0, 3, 8, 20]) if not big else rng.choice([0, 8, 30, 60])
+            if i == 0:
+                for j in range(rng.choice([1, 1, 2])):
+                    if j:
+                        t.boundary()
+                    t.benign(k // 2)
+                    if rng.random() < 0.25:
+                        t.misuse(rng.randrange(4), rng.randrange(3))
+                        t.benign(rng.randrange(0, 3))
+            else:
+                t.benign(k)
+    return line(rng.randrange(0, 1 << 24) if rng.random() < 0.9 else 0, rng.randrange(2), ths)
+
+
 def generate(tier, rng):
     out = rest_family(tier, rng)            # first: next to the rests of corpus/C10/stall.scn, one concurrent batch in the harness
+    out += switch_family(rng)
+    for _ in range(60 if tier == "quick" else 400):
+        out.append(switchy(rng, tier != "quick" and rng.random() < 0.4))
     out += exhaustive(rng)
     out += refused_family(rng)
     ns, nm = (110, 140) if tier == "quick" else (700, 1000)
@@ -328,7 +475,7 @@ def parse(s):
         i += 1
         ops = []
         for _ in range(k):
-            w = {":a": 4, ":f": 3, ":r": 3, ":o": 2, ":w": 2, ":t": 1, ":x": 3, ":s": 2}[t[i]]
+            w = 2 + int(t[i + 1], 16) if t[i] == ":e" else {":a": 4, ":f": 3, ":r": 3, ":o": 2, ":w": 2, ":t": 1, ":x": 3, ":s": 2}[t[i]]
             ops.append(t[i:i + w])
             i += w
         ths.append(ops)
@@ -343,7 +490,7 @@ def misuses(ops):
     """textbook reading: list of (entry, kind) misuses that fire in a script"""
     slots, skip, res = {}, False, []
     for o in ops:
-        if o[0] == ":t":
+        if o[0] in (":t", ":e"):
             skip = False
             continue
         if skip:
@@ -383,9 +530,58 @@ def misuses(ops):
 ENTRY = ["delete", "delete[]", "free", "realloc"]
 
 
+def epochs_of(ths):
+    """[(switches in front of the epoch, [items of thread i in it])] -- the first epoch has no switches"""
+    cut = []
+    for ops in ths:
+        parts, cur = [], []
+        for o in ops:
+            if o[0] == ":e":
+                parts.append(cur)
+                cur = []
+            else:
+                cur.append(o)
+        parts.append(cur)
+        cut.append(parts)
+    sws = [[]] + [[int(x, 16) for x in o[2:]] for o in ths[0] if o[0] == ":e"]
+    n = len(sws)
+    return [(sws[e], [c[e] if e < len(c) else [] for c in cut]) for e in range(n)]
+
+
+def switch_labels(ths):
+    eps = epochs_of(ths)
+    if len(eps) == 1:
+        return ["epochs:1"]
+    lab = ["epochs:%s" % (len(eps) if len(eps) < 5 else "5+")]
+    hist, cycles, ops_before = [], 0, False
+    for sw, parts in eps:
+        depth = doc_state(hist)[0] if doc_state(hist) else 0
+        for k in sw:
+            if k == SAVE:
+                depth += 1
+                if depth == 1:
+                    cycles += 1
+                if depth >= 2:
+                    lab.append("switch:nested-save")
+            elif k == RESTORE:
+                depth -= 1
+            else:
+                lab.append("switch:" + ["turnOff", "turnOnDefault", "turnOnThreadSafe-again"][k])
+        hist = hist + sw
+        busy = any(any(o[0] not in (":s", ":t") for o in p) for p in parts)
+        if sw and not doc_safe(hist):
+            lab.append("control-epoch:" + ("inside-save" if (doc_state(hist) or (0, 0))[0] else ["off", "default", "?"][(doc_state(hist) or (0, 2))[1]]))
+        if busy and cycles and doc_safe(hist):
+            lab.append("scripts-after-save/restore" + ("+carried-blocks" if ops_before else ""))
+        ops_before = ops_before or busy
+    if cycles:
+        lab.append("switch:save/restore-cycles:%s" % (cycles if cycles < 3 else "3+"))
+    return lab
+
+
 def nontrivial(s):
     _, _, ths = parse(s)
-    return sum(1 for o in ths if o) >= 2 or bool(misuses(ths[0]))
+    return sum(1 for o in ths if o) >= 2 or bool(misuses(ths[0])) or any(o[0] == ":e" and len(o) > 2 for o in ths[0])
 
 
 def classify(s):
@@ -406,6 +602,7 @@ def classify(s):
     for o in flat:
         if o[0] == ":x":
             lab.append("refused-realloc:" + ["SIZE_MAX-16", "SIZE_MAX/2", "seam-fails", "largest-admitted", "smallest-refused"][int(o[2], 16)])
+    lab += switch_labels(ths)
     rests = [int(o[1], 16) for o in flat if o[0] == ":s"]
     if rests:
         lab.append("holder-rests:" + ("<=1.5s" if max(rests) <= 1500 else ">1.5s"))
@@ -429,6 +626,15 @@ def signature(s, o):
     try:
         if int(f[7 + int(f[1], 16)], 16) > 0:
             return "two threads inside the locked region (%s)" % tag
+        i = 8 + int(f[1], 16)
+        i += 1 + 3 * int(f[i], 16)
+        counts = [(int(f[i + 1 + 2 * e], 16), int(f[i + 2 + 2 * e], 16)) for e in range(int(f[i], 16))]
+        hist = []
+        for (sw, _), (calls, locked) in zip(epochs_of(ths), counts):
+            hist = hist + sw
+            if doc_safe(hist) and calls != locked:
+                return ("calls of entry points without the detector's lock although the switches say thread-safe%s (%s)"
+                        % (" (after saveAndDisable/restore)" if SAVE in hist else "", tag))
     except (IndexError, ValueError):
         pass
     if any(x[0] == ":x" for ops in ths for x in ops):
@@ -445,6 +651,36 @@ def shrink(s):
         yield fmt(seed, oa, ths[:i] + ths[i + 1:])
     if oa != "0":
         yield fmt(seed, "0", ths)
+    nep = sum(1 for o in ths[0] if o[0] == ":e")
+    if nep:
+        def cut_epoch(ops, e, keep_marker):
+            """drop the items of epoch e (0-based) of one thread, and the boundary in front of it unless asked to keep it"""
+            out, cur = [], 0
+            for o in ops:
+                if o[0] == ":e":
+                    cur += 1
+                    if cur == e and not keep_marker:
+                        continue
+                elif cur == e:
+                    continue
+                out.append(o)
+            return out
+        for e in range(nep, -1, -1):           # empty an epoch's scripts; drop a whole epoch with its switches
+            c = fmt(seed, oa, [cut_epoch(ops, e, True) for ops in ths])
+            if c != s and py_valid(c):
+                yield c
+            if e:
+                c = fmt(seed, oa, [cut_epoch(ops, e, False) for ops in ths])
+                if py_valid(c):
+                    yield c
+        for j, o in enumerate(ths[0]):         # fewer switches: drop one, drop an adjacent pair
+            if o[0] == ":e" and len(o) > 2:
+                sw = o[2:]
+                for a, b in [(i, i + 2) for i in range(len(sw) - 1)] + [(i, i + 1) for i in range(len(sw))]:
+                    rest = sw[:a] + sw[b:]
+                    c = fmt(seed, oa, [ths[0][:j] + [[":e", "%x" % len(rest)] + rest] + ths[0][j + 1:]] + ths[1:])
+                    if py_valid(c):
+                        yield c
     for i, ops in enumerate(ths):              # a rest costs seconds per candidate: try without, and with the shortest that matters
         for j, o in enumerate(ops):
             if o[0] == ":s":
@@ -475,9 +711,26 @@ def py_valid(s):
         return False
     if not ths or len(ths) > 16:
         return False
+    nep = sum(1 for o in ths[0] if o[0] == ":e")
+    if nep > 32 or any(sum(1 for o in ops if o[0] == ":e") != nep for ops in ths):
+        return False
+    if any(o[0] == ":e" and len(o) > 2 for ops in ths[1:] for o in ops):
+        return False
+    hist = []
+    for sw, parts in epochs_of(ths):
+        if any(k > 4 for k in sw):
+            return False
+        hist = hist + sw
+        if doc_state(hist) is None:
+            return False
+        if not doc_safe(hist) and any(any(o[0] != ":s" for o in p) for p in parts):
+            return False
     for i, ops in enumerate(ths):
         slots, skip = {}, False
         for o in ops:
+            if o[0] == ":e":
+                skip = False
+                continue
             if o[0] == ":t":
                 if i:
                     return False
